@@ -29,7 +29,9 @@ CLAIM = (
     "basis, additive in the distance and inverted by the negative distance; sum_patches is exactly the transpose of patch extraction for index "
     "sets with wrap-around and repeats (matrix equality on both bases; exact hit counts and inner products for index sets of 2^12..2^17 patch pixels around block boundaries); for pure-phase and potential objects the summed predicted intensity of "
     "every pattern equals the probe's total intensity for 1..4 slices and 1..3 modes; fourier_projection returns a wave whose detector "
-    "amplitude equals the measured amplitudes and is idempotent, single and mixed state. Exhaustive lattice exploration with the linearity "
+    "amplitude equals the measured amplitudes and is idempotent, single and mixed state, for signal scales 1e-4..30; and for every ordered pair "
+    "(thorough: triple) of calls from an alphabet built to collide on coarse cache keys, the last call still obeys its identities, agrees with the same call "
+    "executed alone, and the propagators equal the closed-form Fresnel kernel of their own sampling. Exhaustive lattice exploration with the linearity "
     "argument is the right level: the data quantifier is closed by the basis, the defects live in shape parity, axis order and index handling."
 )
 NOTE = (
@@ -37,13 +39,15 @@ NOTE = (
     "parameters (shifts on a 1/4-pixel grid, five thicknesses, two tilts, two energies). Tolerance 1e-5 for the linear-operator identities (phase ramps and propagators are built in "
     "complex64 even for complex128 input; worst observed 4e-7), 3e-5 for the complex64 forward chain (observed 8e-7), 2e-5 for the projection (4e-7). Negative slice thicknesses are rejected by the public setters, so the "
     "inverse-distance identity uses the internal seam ProbeBase._compute_propagator_arrays when present. Overlap arrays whose Fourier transform "
-    "vanishes somewhere (zero, constant, hard-aperture waves) are in the projection alphabet for one mode and outside it for mixed states (no mode direction is defined there). The closed-form Fresnel kernel is "
-    "compared for information only (stat max_fresnel_kernel_dev): the property states group identities, not kernel values."
+    "vanishes somewhere (zero, constant, hard-aperture waves) are in the projection alphabet for one mode and outside it for mixed states (no mode direction is defined there). In the lattice parts the closed-form Fresnel "
+    "kernel is compared for information only (stat max_fresnel_kernel_dev): the property states group identities, not kernel values; in the call-history part it is judged (1e-4) because it is the "
+    "only witness of a propagator built with another model's sampling. Call histories are bounded at two (thorough: three) calls of a 27-call alphabet; module state is reset by restoring the "
+    "containers and lru_caches found by introspection, so state kept elsewhere (closures, C extensions) is not reset."
 )
 RULE = (
     "Cartesian product of the alphabets named in coverage.alphabet. A shift point is non-trivial when the shift is not zero, a pair when both are; a "
     "propagation point when the distance is not zero; an adjoint point when the index set has wrap-around or repeated indices or more than one patch; a "
-    "forward point always (object and probe are seeded, never uniform); a projection point when the measured amplitudes differ from the current ones. "
+    "forward point always (object and probe are seeded, never uniform); a projection point when the measured amplitudes differ from the current ones; a call history when it has more than one call. "
     "distinct = distinct point descriptors."
 )
 
@@ -885,7 +889,7 @@ def do_call(call, seed, check=True):
             back = shift_apply(impl, out, [[1.0 - s[0], 1.0 - s[1]]], pd)[0]
             e = float(np.abs(back - np.roll(x, (1, 1), axis=(1, 2))).max()) / sc
             if e > TOL:
-                probs.append(("shift_additive", f"shift{s} followed by shift{(1.0 - s[0], 1.0 - s[1])} differs from roll(1,1) by {e:.3g}"))
+                probs.append(("shift_additive", f"shift{s} followed by shift{(round(1.0 - s[0], 6), round(1.0 - s[1], 6))} differs from roll(1,1) by {e:.3g}"))
         if not np.array_equal(x, x0):
             probs.append(("inputs_unmodified", "the input stack was modified"))
         return probs, out
@@ -957,7 +961,9 @@ def do_call(call, seed, check=True):
     raise ValueError(call)
 
 
-def run_call_history(t, hist, seed, alone=None):
+def run_call_history(t, hist, seed, alone=None, alone_failed=()):
+    """Returns (output of the last call, identities it failed). `alone` / `alone_failed`: the same for the last call executed alone;
+    an identity that already fails alone is reported once, for the one-call history, not again for every longer history."""
     restore_module_state()
     case = {"kind": "call_history", "history": [list(c) for c in hist]}
     last = hist[-1]
@@ -968,6 +974,8 @@ def run_call_history(t, hist, seed, alone=None):
     t.case(key=case, nontrivial=len(hist) > 1, outcome=[last[0], len(probs)])
     earlier = [list(c) for c in hist[:-1]]
     for ident, msg in probs:
+        if earlier and ident in alone_failed:
+            continue
         if earlier:
             t.fail({"relation": "result_independent_of_earlier_calls", "last_call": last[0], "identity": ident}, case, f"after the calls {earlier} the call {list(last)} fails {ident}: {msg} (alone it holds)")
         else:
@@ -975,9 +983,9 @@ def run_call_history(t, hist, seed, alone=None):
     if alone is not None and out is not None:
         d = float(np.abs(out - alone).max()) / max(float(np.abs(alone).max()), 1e-30) if out.shape == alone.shape else float("inf")
         t.stat("history_vs_alone_rel_dev", d)
-        if d > TOL and not probs:
+        if d > TOL and not probs and not alone_failed:
             t.fail({"relation": "result_independent_of_earlier_calls", "last_call": last[0], "identity": "equals_the_call_alone"}, case, f"after the calls {earlier} the result of {list(last)} differs from the same call executed alone by {d:.3g} of its maximum")
-    return out
+    return out, {ident for ident, _m in probs}
 
 
 @guarded
@@ -986,13 +994,13 @@ def w_call_history(item, seed=0, depth=2):
     t = Tally()
     calls = call_alphabet()
     last = calls[item]
-    alone = run_call_history(t, [last], seed)
+    alone, failed = run_call_history(t, [last], seed)
     for c in calls:
-        run_call_history(t, [c, last], seed, alone)
+        run_call_history(t, [c, last], seed, alone, failed)
     if depth >= 3:
         for a in calls:
             for m in calls[1::4]:  # middle call: every fourth call of the alphabet (one of each kind)
-                run_call_history(t, [a, m, last], seed, alone)
+                run_call_history(t, [a, m, last], seed, alone, failed)
     t.sample({"kind": "call_history", "last_call": last, "depth": depth, "calls_in_alphabet": len(calls)}, cap=2)
     return t
 
@@ -1098,8 +1106,8 @@ def replay(ctx, case):
     seed = ctx.seed
     if k == "call_history":
         hist = case["history"]
-        alone = run_call_history(Tally(), [hist[-1]], seed) if len(hist) > 1 else None
-        run_call_history(t, hist, seed, alone)
+        alone, failed = run_call_history(Tally(), [hist[-1]], seed) if len(hist) > 1 else (None, ())
+        run_call_history(t, hist, seed, alone, failed)
     elif k == "shift":
         judge_shift(t, tuple(case["roi"]), case["impl"], case["pos_dtype"], tuple(case["a"]), [tuple(case["b"])] if "b" in case else [], seed)
     elif k == "shift_stack":
